@@ -16,6 +16,32 @@
 4. Long random histories (TLC -simulate on the same model: every second step an invocation, VERSION bumps,
    commits, user tags in between) are replayed and validated the same way, so the tool also meets the tags
    it created itself.
+Coverage table (statement clause / quantifier dimension -> where it is explored -> what is still thin):
+  dry-run is the default, mutates nothing   Flags {absent,true,false} x 11 command-line spellings (bare, =1/=T/=0/=False, repeated
+                                            flags, last one wins); every observation before/after      -> env-var / config-file
+                                            ways of setting dry-run are not driven (the code reads none)
+  only on a clean work tree                 Touch {modified, staged, untracked, deleted} (+ ignored = clean in thorough)
+                                            -> submodules, linked worktrees, mode-only and CRLF changes are absent
+  strictly greater than every existing      NameTable x ReqTable: release / pre-release (alpha.2 < alpha.10 < rc.1 < release), build
+  FULL semver tag of the same major         metadata, v-less, two-part, major-only, leading zero, other majors, non-version and
+                                            hierarchical names; tags lightweight / annotated / on a tree object / sharing another
+                                            tag's object (Alias); on HEAD, on ancestors, on the sibling branch `side`, HEAD attached
+                                            or detached; "pivot" cases = every (request, single existing tag) relation TLC generates
+                                            is always replayed                                      -> nested tags (tag of a tag),
+                                            tags on blobs, more than ~3 tags at once only in simulated histories
+  requested version                         tracked env file / parent directory / both (the one in "." wins) / missing / empty /
+                                            invalid; Bump between invocations in simulated histories   -> quoting, CRLF, `export`
+                                            and whitespace spellings inside the env file are not driven
+  creates v<canonical> at HEAD, moves       contract Allowed(): exactly the two refs, commit = HEAD (attached main/side, detached),
+  v<major>, changes nothing else            every other ref bit-identical, branches, origin (byte for byte), work tree, status,
+                                            config, env files, packed-refs structure, `git fsck` connectivity after every invocation
+                                            -> reflogs, hooks and unreachable objects are not observed; objects are packed only in
+                                            the initial history (tags created later are loose)
+  otherwise refs untouched, exit signals    exit classes ok / nothing (8) / error; stale, dirty, invalid => non-zero in both modes
+                                            -> which of 8 / 1 is used is left open (the statement says "or")
+  histories                                 breadth-first to 3 (quick) / 4 (thorough) actions from a forked 3-commit history +
+                                            simulated 6 / 10 step histories with 3 / 5 invocations each
+
 The semver abstraction tables of the spec are recomputed with Masterminds/semver (drivers/tagger, built
 inside the tools module of the snapshot); any disagreement is exit 2.
 """
@@ -735,6 +761,19 @@ def run(ctx):
         # budget for histories whose last invocation the contract permits to tag (that is where refs are
         # written), the rest for all others.
         simi = [i for i in order if i >= n_bfs]
+        # pivots: for every (request, single existing full tag of that major, its kind, made-from-another-tag) that TLC
+        # generated, the first (shortest) real invocation on a clean tree -- every version-order relation and every
+        # way such a tag can exist is replayed whatever the budget
+        pivots = {}
+        for i in order:
+            if i >= n_bfs:
+                continue
+            o = cases[i]["ops"][-1]
+            same = model_tags(o.get("same", {}))
+            if o.get("flag") == "false" and o["pre"]["dirty"] == "clean" and len(same) == 1:
+                (n, rec), = same.items()
+                pivots.setdefault((cases[i]["version"], n, rec["k"], rec["shared"]), i)
+        simi = sorted(set(simi) | set(pivots.values()))
         left = max(0, budget - len(simi))
 
         def draw(ids, quota):
@@ -754,8 +793,9 @@ def run(ctx):
                     else:
                         keys.remove(k)
             return out
-        perm = [i for i in order if i < n_bfs and cases[i]["ops"][-1].get("permitted")]
-        other = [i for i in order if i < n_bfs and not cases[i]["ops"][-1].get("permitted")]
+        fixed = set(simi)
+        perm = [i for i in order if i < n_bfs and i not in fixed and cases[i]["ops"][-1].get("permitted")]
+        other = [i for i in order if i < n_bfs and i not in fixed and not cases[i]["ops"][-1].get("permitted")]
         pick = draw(perm, int(left * 0.6))
         order = sorted(simi + pick + draw(other, left - len(pick)))
     tmpl = Templates(ctx)
@@ -831,7 +871,7 @@ def run(ctx):
     ctx.cov["distinct_nontrivial"] = len(order)
     ctx.cov["rule"] = ("one replay per RunExit transition generated by TLC on Tagger.tla (distinct repository state x flag x "
                        "requested version, representative history); every invocation inside a history is judged")
-    ctx.cov.update({"cases_exported": len(cases), "bfs_cases": n_bfs, "simulated_long_histories": n_sim, "cases_replayed": len(order), "invocations_judged": n_runs,
+    ctx.cov.update({"pivot_cases": len(pivots) if len(cases) > budget else 0, "cases_exported": len(cases), "bfs_cases": n_bfs, "simulated_long_histories": n_sim, "cases_replayed": len(order), "invocations_judged": n_runs,
                     "invocations_that_tagged": n_tagged, "refused_though_permitted": n_refused,
                     "impl_drift_cases": len(drift), "impl_drift_refused_where_model_tags": len(under), "semver_table_entries_checked": n_table,
                     "trace_events": sum(len(results[i]["events"]) for i in order), "trace_chunks": len(chunks),
